@@ -53,7 +53,8 @@ InvWhy(e) ==
   ELSE IF e.k \notin OpKinds /\ Benign(e.d, e.k, e.at, F(e.f, e.v)) /\ ~e.same
        THEN <<"inv", <<"DataIntact">>, e.o, e.x, {"same"}>>
   \* an operation that reports a target reports the documented one (bit rate and every attribute), fault or not
-  ELSE IF e.k \in OpKinds /\ e.o = "Target" /\ ~e.same THEN <<"inv", <<"TargetIntact">>, e.o, e.x, {"same"}>>
+  \* (except when the fault shortened the answer that carries the target's data)
+  ELSE IF e.k \in OpKinds /\ e.o = "Target" /\ ~e.same /\ ~CutData(F(e.f, e.v)) THEN <<"inv", <<"TargetIntact">>, e.o, e.x, {"same"}>>
   ELSE <<>>
 Judge == IF InvWhy(Ev) # <<>>
          THEN PrintT(<<"STUCK", Traces[tid].id \o "#" \o ToString(l), l, "Exchange", InvWhy(Ev)>>)
